@@ -11,7 +11,9 @@ Syntaxes == {"proto2", "proto3", "editions"}
 
 Features == {"pkg", "import", "public", "nested", "enum", "map", "group", "oneof", "p3opt", "extrange",
              "extend", "service", "customopt", "msglit", "srcret", "stdopt", "default", "reserved",
-             "jsonname", "required", "features", "comments", "weird_layout"}
+             "jsonname", "required", "features", "comments", "weird_layout",
+             "jsoncollide",   \* two fields whose DEFAULT json names collide (foo_bar / fooBar): only a warning outside proto3
+             "mapfeatures"}   \* editions: feature overrides on a map field (copied to the synthetic entry's key/value)
 
 (* what the language admits *)
 SyntaxOK(s, f) ==
@@ -22,6 +24,8 @@ SyntaxOK(s, f) ==
     [] f = "required" -> s # "proto3"        \* editions: LEGACY_REQUIRED
     [] f = "default"  -> s # "proto3"
     [] f = "features" -> s = "editions"
+    [] f = "mapfeatures" -> s = "editions"
+    [] f = "jsoncollide" -> s = "proto2"
     [] OTHER -> TRUE
 
 Needs(f) == CASE f = "extend" -> {"extrange"} [] f = "public" -> {"import"} [] f = "msglit" -> {"customopt"}
@@ -53,4 +57,6 @@ Kinds(s, fs) ==
   \cup (IF "jsonname" \in fs THEN {"json_name"} ELSE {})
   \cup (IF "required" \in fs THEN (IF s = "proto2" THEN {"required"} ELSE {"legacy_required"}) ELSE {})
   \cup (IF "srcret" \in fs THEN {"source_retention_option"} ELSE {})
+  \cup (IF "jsoncollide" \in fs THEN {"json_default_collision"} ELSE {})
+  \cup (IF "mapfeatures" \in fs THEN {"map_entry", "map_field_features"} ELSE {})
 =============================================================================
